@@ -11,13 +11,17 @@ property as no longer tied to the source.
 import re, sys, os
 
 REPO = os.environ.get("VERIF_REPO", "/repo")
-OUT = os.path.join(os.path.dirname(os.path.dirname(os.path.abspath(__file__))),
-                   "lean", "DSymVerif", "Generated", "Tables.lean")
+OUT = os.path.join(os.environ.get("VERIF_LEAN") or os.path.join(os.path.dirname(os.path.dirname(os.path.abspath(__file__))), "lean"),
+                   "DSymVerif", "Generated", "Tables.lean")
 
 
 def read(rel):
     with open(os.path.join(REPO, rel)) as f:
-        return f.read()
+        text = f.read()
+    if rel.endswith(".rs"):
+        # drop line comments (none of the tables contains "//" inside a string literal)
+        text = re.sub(r"//[^\n]*", "", text)
+    return text
 
 
 def fn_body(src, header_re):
@@ -72,6 +76,21 @@ def main():
     if len(good) < 10:
         raise SystemExit("extract_tables: good-orbifold list suspiciously short")
 
+    # named integer constants of the file (resolved recursively), so that a literal moved
+    # into a `const` is still read
+    consts = {}
+    raw = dict(re.findall(r"const\s+(\w+)\s*:\s*i64\s*=\s*([^;]+);", gen))
+    def cval(expr, depth=0):
+        if depth > 8:
+            raise SystemExit("extract_tables: cyclic constants")
+        e = expr.strip().replace("_", "") if re.fullmatch(r"[-\d_\s]+", expr.strip()) else expr.strip()
+        for name in sorted(raw, key=len, reverse=True):
+            if re.search(r"\b" + name + r"\b", e):
+                e = re.sub(r"\b" + name + r"\b", "(" + str(cval(raw[name], depth + 1)) + ")", e)
+        if not re.fullmatch(r"[-+*/()\d\s]+", e):
+            raise SystemExit(f"extract_tables: cannot evaluate constant expression {expr!r}")
+        return int(eval(e.replace("/", "//")))
+
     def geom_table(fn):
         body = fn_body(gen, r"fn\s+" + fn + r"\s*\(&self\)\s*->\s*i64\s*\{")
         out = {}
@@ -80,7 +99,7 @@ def main():
             if val == "i64::MIN":
                 out[g] = None
             else:
-                out[g] = eval(val.replace("CURV_FAC", str(curv_fac)))
+                out[g] = cval(val)
         if set(out) != {"Spherical", "Euclidean", "Hyperbolic", "All"}:
             raise SystemExit(f"extract_tables: {fn} table incomplete: {out}")
         return out
@@ -101,10 +120,10 @@ def main():
     vmax = int(vmx.group(1))
 
     new_body = fn_body(gen, r"fn\s+new\s*\(dset:\s*&SimpleDSet,\s*geoms:\s*Geometries\)\s*->\s*DSymBackTracking\s*\{")
-    cm = re.search(r"base_curvature\s*<\s*0\s*\{\s*base_curvature\s*\}\s*else\s*\{\s*([^/\n}]+(?:/\s*\d+)?)", new_body)
+    cm = re.search(r"base_curvature\s*<\s*0\s*\{\s*base_curvature\s*\}\s*else\s*\{\s*([^}]+?)\s*\}", new_body)
     if not cm:
         raise SystemExit("extract_tables: lower curvature cut-off of DSymBackTracking::new not found")
-    min_hyp_cutoff = int(eval(cm.group(1).strip().replace("CURV_FAC", str(curv_fac)).replace("/", "//")))
+    min_hyp_cutoff = cval(cm.group(1))
     bm = re.search(r"let\s+mut\s+base_curvature\s*=\s*-CURV_FAC\s*/\s*(\d+)\s*\*\s*dset\.size\(\)", new_body)
     if not bm:
         raise SystemExit("extract_tables: base curvature per chamber not found")
